@@ -59,6 +59,9 @@ def output_text_report(tex, plain, charmap, matches, file, out):
         beg = json_get(cont, 'offset', int)
         length = json_get(cont, 'length', int)
         out.write(txt.replace('\t', ' ') + '\n')
+        # NB: values from the proofreader, keep the marker inside the excerpt
+        beg = min(max(beg, 0), len(txt))
+        length = min(max(length, 0), len(txt) - beg)
         out.write(' ' * beg + '^' * length + '\n')
 
         if 'urls' in rule:
